@@ -598,6 +598,10 @@ void
 evbuffer_free(struct evbuffer *buffer)
 {
 	EVBUFFER_LOCK(buffer);
+	/* The buffer may outlive this call (a deferred callback is queued, or
+	 * another buffer still references its chains), but its owner is gone:
+	 * no callback may run any more. */
+	evbuffer_remove_all_callbacks(buffer);
 	evbuffer_decref_and_unlock_(buffer);
 }
 
